@@ -1,24 +1,63 @@
+(* C07 — cases written by the harnesses (root package: RPC authorization grid; package crdt: trust
+   histories and validated broadcasts), compared with the model over the GENERATED tables (code 1) and
+   checked against the boolean form of the property over the SPECIFICATION tables (code 2). *)
 From Coq Require Import String.
-From V Require Import Base.Common Base.Rpc Model.C07_Auth Gen.Policy.
+From V Require Import Base.Common Base.Rpc Model.C07_Auth Model.C07_Spec Gen.Policy Gen.RPCMethods.
 Open Scope string_scope.
 
-(* observed class of an RPC: 0 authorization error, 1 passed authorization *)
-Inductive c07case :=
-| CAuth (ep : string) (known : bool) (local trusted : bool) (passed : bool)
-| CTrust (cfg : crdt_cfg) (h : list top) (p : N) (obs : bool)
-| CRaftTrust (p : N) (obs : bool).
+(* trust configuration of the called peer. Peer 0 is the called peer itself. *)
+Inductive tmode := MRaft | MCrdt (star : bool) (configured : list N) (h : list top).
+Definition trust_of (m : tmode) (p : N) : bool :=
+  match m with
+  | MRaft => trust_raft p
+  | MCrdt star l h => trust_crdt (mk_crdt_cfg star 0%N l) h p
+  end.
 
-Definition open_spec : list string := ["Cluster.ID"; "Cluster.Version"; "Cluster.PeerAdd"].
+Inductive c07case :=
+(* caller (0 = the peer itself through its own client), endpoint, observed: true = anything but an authorization error *)
+| CAuth (m : tmode) (caller : N) (ep : string) (passed : bool)
+(* endpoints found by reflection on the service objects; the policy map the configuration carries at run time;
+   isRPCPolicyValid's verdict on it *)
+| CMethods (l : list string)
+| CPolicy (l : list (string * ept))
+| CPolicyValid (ok : bool)
+(* package crdt: IsTrustedPeer(p) for p = 0..len-1 after the history *)
+| CTrust (star : bool) (configured : list N) (h : list top) (obs : list bool)
+(* package crdt: an update published by `signer` reached (true) the replica whose trust state is (cfg, h) *)
+| CDeliver (star : bool) (configured : list N) (h : list top) (signer : N) (arrived : bool).
+
+Definition seteq_str (a b : list string) : bool :=
+  forallb (fun x => mem_str x b) a && forallb (fun x => mem_str x a) b.
+Definition ept_opt_eqb (a b : option ept) : bool :=
+  match a, b with Some x, Some y => ept_eqb x y | None, None => true | _, _ => false end.
+
+Fixpoint seqN (start : N) (n : nat) : list N :=
+  match n with O => [] | S k => start :: seqN (N.succ start) k end.
+
+Definition fail1 (id : N) (b : bool) : list (N * N * N) := if b then [] else [(id, 1%N, 0%N)].
+Definition fail2 (id : N) (b : bool) : list (N * N * N) := if b then [] else [(id, 2%N, 0%N)].
 
 Definition check_case (c : N * c07case) : list (N * N * N) :=
   let '(id, k) := c in
   match k with
-  | CAuth ep known local trusted passed =>
-      (if Bool.eqb (call_allowed policy local trusted ep) passed then [] else [(id, 1%N, 0%N)]) ++
-      (* the property itself on the observation: an untrusted remote caller passes only on the open endpoints *)
-      (if passed && negb local && negb trusted && negb (mem_str ep open_spec) then [(id, 2%N, 0%N)] else [])
-  | CTrust cfg h p obs => if Bool.eqb (trust_crdt cfg h p) obs then [] else [(id, 1%N, 0%N)]
-  | CRaftTrust p obs => if Bool.eqb (trust_raft p) obs then [] else [(id, 1%N, 0%N)]
+  | CAuth m caller ep passed =>
+      let local := N.eqb caller 0 in
+      (fail1 id (Bool.eqb (call_allowed policy local (trust_of m caller) ep) passed) ++
+      (* the property on the observation: a remote caller that is let in is calling an open endpoint, or is
+         trusted and calling an endpoint that is not local-only *)
+      fail2 id (negb passed || local || mem_str ep open_spec
+                || (trust_of m caller && negb (mem_str ep local_only_spec))))%list
+  | CMethods l => fail1 id (seteq_str l rpc_methods && nodup_str l)
+  | CPolicy l =>
+      fail1 id (forallb (fun e => ept_opt_eqb (lookup (fst e) policy) (Some (snd e))) l
+                && forallb (fun e => ept_opt_eqb (lookup (fst e) l) (Some (snd e))) policy)
+  | CPolicyValid ok =>
+      fail1 id (Bool.eqb ok (forallb (fun m => match lookup m policy with Some _ => true | None => false end) rpc_methods))
+  | CTrust star l h obs =>
+      fail1 id (list_eqb Bool.eqb (map (trust_crdt (mk_crdt_cfg star 0%N l) h) (seqN 0 (length obs))) obs)
+  | CDeliver star l h signer arrived =>
+      (fail1 id (Bool.eqb (validator (mk_crdt_cfg star 0%N l) h signer) arrived) ++
+       fail2 id (negb arrived || trust_crdt (mk_crdt_cfg star 0%N l) h signer))%list
   end.
 
 Definition failing (cs : list (N * c07case)) : list (N * N * N) := flat_map check_case cs.
